@@ -114,7 +114,7 @@ class C06(PropCheck):
         from .. import chains
 
         root = rng.choice(chains.ROOTS)
-        n = rng.randint(0, 5)
+        n = rng.randint(0, 5) if rng.random() < 0.9 else rng.randint(101, 125)     # (some chains deeper than the 100-step guard)
         links = ["yield_from"] * n if root == "gen" else chains.rand_links(rng, n, root)
         return {"k": "chain", "spec": {"root": root, "links": links, "end": rng.choice(chains.ENDS), "two_points": rng.random() < 0.5},
                 "reps": rng.randint(1, 3), "mode": rng.choice(["trickery", "referents", "auto"])}
